@@ -1348,7 +1348,7 @@ class OutMsg(TlbScheme):
                        import_block_lt=cell_slice.load_uint(63)
                        )
         if tag == '1101':
-            return cls('msg_export_deq',
+            return cls('msg_export_deq_short',
                        msg_env_hash=cell_slice.load_bytes(32),
                        next_workchain=cell_slice.load_int(32),
                        next_addr_pfx=cell_slice.load_uint(64),
